@@ -253,7 +253,7 @@ func c20Differential(c *c20Case, builtin, loaded map[ipfix.ElementKey]ipfix.Info
 // ---------------------------------------------------------------- phase 3: the model stays what it was, whatever is decoded
 
 const c20HistoryRule = " | phase 3 (histories, TestC20History): 1..8 operations drawn from {decode a generated NetFlow v9 scenario, decode a generated IPFIX scenario, decode a generated sFlow / NetFlow v5 datagram, " +
-	"load scripts/ipfix.elements through the real loader, run the loader on a directory without the file}; in half of the scenario operations the loader (with or without the file) runs between the scenario's announcement messages and its data; the scenarios are generated from and their expected records computed with the element types of golden/ipfix_registry.json; " +
+	"load scripts/ipfix.elements through the real loader, run the loader on a directory without the file, run it on an installed file that cannot be loaded (a tab for indentation, an element id beyond 16 bits, a directory in its place, octets that are no YAML): the model in force stays what it was}; in half of the scenario operations the loader (with or without the file) runs between the scenario's announcement messages and its data; the scenarios are generated from and their expected records computed with the element types of golden/ipfix_registry.json; " +
 	"after every operation the live information model must equal the registry snapshot entry by entry (key set, name, type, FieldID) and every scenario must decode to the golden-typed reference; a history case is non-trivial when it has >= 2 different kinds of operation"
 
 type c20Op struct {
@@ -348,6 +348,31 @@ func (r *c20Rig) goldenElems() []wire.Elem {
 }
 
 // modelIntact compares the live information model with the registry snapshot.
+// brokenDir makes a configuration directory whose ipfix.elements cannot be loaded; kind (first octet of raw) selects how.
+func (r *c20Rig) brokenDir(raw []byte) (string, error) {
+	dir, err := os.MkdirTemp(r.emptyDir, "broken")
+	if err != nil {
+		return "", err
+	}
+	file := filepath.Join(dir, "ipfix.elements")
+	kind := 0
+	if len(raw) > 0 {
+		kind = int(raw[0]) % 4
+	}
+	shipped, _ := os.ReadFile(filepath.Join(r.fileDir, "ipfix.elements"))
+	switch kind {
+	case 0:
+		err = os.WriteFile(file, append(append([]byte{}, shipped...), []byte("\n0:\n\t1:\n  - broken\n")...), 0o644) // a tab for indentation
+	case 1:
+		err = os.WriteFile(file, append(append([]byte{}, shipped...), []byte("\n  70000:\n  - tooLarge\n  - unsigned8\n")...), 0o644) // an id beyond 16 bits
+	case 2:
+		err = os.Mkdir(file, 0o755) // a directory where the file should be
+	default:
+		err = os.WriteFile(file, []byte("{[ not yaml: at all\n\x00\xff"), 0o644)
+	}
+	return dir, err
+}
+
 func (r *c20Rig) modelIntact() error {
 	if len(ipfix.InfoModel) != len(r.gold) {
 		return fmt.Errorf("the live information model has %d entries, the registry snapshot %d", len(ipfix.InfoModel), len(r.gold))
@@ -414,6 +439,25 @@ func (r *c20Rig) run(h *c20History) (v verdict, sig string, err error) {
 			if e := ipfix.LoadExtElements(r.fileDir); e != nil {
 				return v, "load", fmt.Errorf("operation %d: LoadExtElements on the shipped file: %v", i, e)
 			}
+		case "load-broken":
+			// an installed file that cannot be loaded (it does not parse, an id does not fit, the path is a directory): the
+			// loader reports it; the model in force stays what it was
+			dir, e := r.brokenDir(op.Raw)
+			if e != nil {
+				return v, "", fmt.Errorf("harness: %v", e)
+			}
+			func() {
+				defer func() {
+					if rec := recover(); rec != nil {
+						err = fmt.Errorf("operation %d: LoadExtElements on an unloadable file panicked: %v", i, rec)
+					}
+				}()
+				ipfix.LoadExtElements(dir)
+			}()
+			os.RemoveAll(dir)
+			if err != nil {
+				return v, "panic", err
+			}
 		case "load-absent":
 			if e := ipfix.LoadExtElements(r.emptyDir); e != nil {
 				return v, "load", fmt.Errorf("operation %d: LoadExtElements without a file: %v", i, e)
@@ -451,12 +495,14 @@ func TestC20History(t *testing.T) {
 		h := c20History{Phase: 3}
 		n := rapid.IntRange(1, 8).Draw(t, "nops")
 		for i := 0; i < n; i++ {
-			op := c20Op{Op: rapid.SampledFrom([]string{"nf9", "ipfix", "nf9", "ipfix", "sflow", "nf5", "load-file", "load-absent"}).Draw(t, "op")}
+			op := c20Op{Op: rapid.SampledFrom([]string{"nf9", "ipfix", "nf9", "ipfix", "sflow", "nf5", "load-file", "load-absent", "load-broken"}).Draw(t, "op")}
 			switch op.Op {
 			case "nf9", "ipfix":
 				sc := envs[op.Op].GenScenario(t, 2, 3)
 				op.Sc = &sc
 				op.Across = rapid.SampledFrom([]string{"", "", "load-file", "load-absent"}).Draw(t, "across")
+			case "load-broken":
+				op.Raw = []byte{byte(rapid.IntRange(0, 3).Draw(t, "brokenkind"))}
 			case "sflow":
 				d := wire.GenSFDatagram(t)
 				op.Raw = d.Bytes()
